@@ -122,23 +122,17 @@ def check(ctx):
             cb = cl[0]
             cmpc = [c for c in cb.calls if c.path in CMP_CALLS][0]
             a0, a1 = Origins(cb, 1).atoms(cmpc.args[0]), Origins(cb, 1).atoms(cmpc.args[1])
-            eq = CMP_CALLS[cmpc.path] == "Eq" and atom_match(a0 | a1, "call:fuel_tx::transaction::types::input::Input::owner") and \
-                atom_match(a0 | a1, "upvar:expected_address")
-            ctx.add("3.owner-equals-expected", "PROV", eq, "verified = (owner(recovered key) == expected address)", sites=[cmpc.where()], site_key="eq")
-            ups = {a[1] for a in (a0 | a1) if a[0] == "upvar"}
-            good = True
-            why = []
-            for name in ups:
-                for l in b.locals_named(name):
-                    at = Origins(b, 1).atoms({"k": "copy", "l": l})
-                    flds = {a[1] for a in at if a[0] == "field" and a[1].startswith(SV + ".")}
-                    if name == "expected_address":
-                        if not atom_match(at, "call:fuel_core_tx_status_manager::service::ProtocolPublicKey::latest_address") or flds - {SV + ".protocol_pubkey"}:
-                            good = False
-                            why.append(sorted(flds))
-            ctx.add("3.expected-is-fresh-protocol-address", "PROV", good and "expected_address" in ups,
-                    "the expected address comes straight from latest_address() of the protocol key (no cached state)", sites=sorted(ups), site_key="fresh",
-                    witness=None if good else {"fields": why})
+            own = "call:fuel_tx::transaction::types::input::Input::owner"
+            # which side is the recovered owner, which the captured expected address (by origin, not by name)
+            side_owner, side_exp = (cmpc.args[0], cmpc.args[1]) if atom_match(a0, own) else (cmpc.args[1], cmpc.args[0])
+            exp = ctx.resolved_atoms(u, cb, side_exp, 1)
+            eq = CMP_CALLS[cmpc.path] == "Eq" and atom_match(a0 | a1, own) and any(k == "upvar" for k, v in Origins(cb, 1).atoms(side_exp)) and not atom_match(exp, own)
+            ctx.add("3.owner-equals-expected", "PROV", eq, "verified = (owner(recovered key) == expected address captured from the caller)", sites=[cmpc.where()], site_key="eq")
+            flds = {v for k, v in exp if k == "field" and str(v).startswith(SV + ".")}
+            good = atom_match(exp, "call:fuel_core_tx_status_manager::service::ProtocolPublicKey::latest_address") and not (flds - {SV + ".protocol_pubkey"})
+            ctx.add("3.expected-is-fresh-protocol-address", "PROV", good,
+                    "the expected address comes straight from latest_address() of the protocol key (no cached state)", sites=sorted(map(str, flds)) or [cmpc.where()], site_key="fresh",
+                    witness=None if good else {"fields": sorted(map(str, flds))})
         ctx.arg_origin("3.insert-into-delegate-keys", ins, 0, f"field:{SV}.delegate_keys")
         ctx.arg_origin("3.inserted-key-is-expiration", ins, 1, "field:fuel_core_types::services::p2p::DelegatePreConfirmationKey.expiration")
         ctx.arg_origin("3.inserted-value-is-public-key", ins, 2, "field:fuel_core_types::services::p2p::DelegatePreConfirmationKey.public_key")
